@@ -267,6 +267,17 @@ def runEmit (line : String) : String :=
       hexOfNats bufs.flatten ++ s!" failed={failed}" ++ "\t" ++
         (if ws.isEmpty then "trivial" else s!"added={min added.length 3},failed={min failed 2}")
     | _, _ => "bad-op"
+  -- restarted onto an existing file of the current period (`reuse_files(true)`) that holds exactly `pre`: the worker's
+  -- recovery write (`Model.FileSet`, theorems `reuse_recovers`, `recovery_separator_first`) puts the CONFIGURED
+  -- separator before the first event; a life without a written event leaves the file alone
+  | some (.list [.atom "emitr", sep, pre, .list (.atom "ev" :: evs)]) =>
+    match nats? sep, nats? pre, evs.mapM item? with
+    | some sep, some pre, some ws =>
+      let (bufs, failed) := emitAll sep ws
+      let content := if bufs.isEmpty then pre else pre ++ sep ++ bufs.flatten
+      hexOfNats content ++ s!" failed={failed}" ++ "\t" ++
+        (if bufs.isEmpty then "restart-untouched" else if sep.isSuffixOf pre then "restart-complete" else "restart-torn")
+    | _, _, _ => "bad-op"
   | some (.list [.atom "json", .list (.atom "ev" :: evs)]) =>
     match evs.mapM (fun e => match e with | .list [m, p] => (do pure (← m.str?, ← p.str?)) | _ => none) with
     | some evs => s!"n={evs.length} ok=true\t" ++ (if evs.isEmpty then "trivial" else "json")
